@@ -16,7 +16,7 @@ EXPLANATION = ("Def-use and order facts that hold for every schedule if they hol
                "before dispatch and decremented + notified by the worker after it has sent its result. That every address resolves to "
                "its own bytes under all schedules is not decided (C01/C14 layout rules cover the encoding)."
                " (R5) finalize hands both open clusters to the writer, joins, then writes the tables; (R6) the table positions recorded in the header are tell() taken right before the table is written, never computed from a cluster address."
-               ' Added later: (R7) positions are asked of the buffering stream (= C01-R19); (R8) a Late<T> slot owns its value (clones made by resize do not alias). (R9) the number of compression workers has a floor of one.')
+               ' Added later: (R7) positions are asked of the buffering stream (= C01-R19); (R8) a Late<T> slot owns its value (clones made by resize do not alias). (R9) the number of compression workers has a floor of one. (R10) the width of the cluster tail\'s fields covers every value written with it (= C01-R7).')
 ASSUMPTIONS = ["std mpsc / spmc channels deliver each message once", "rustc MIR construction and trait resolution"]
 
 
@@ -345,7 +345,18 @@ def r7_positions_on_the_buffered_stream(cx):
     c01.r19_positions_taken_on_the_buffered_stream(cx, rule="R7")
 
 
+def r10_tail_fields_fit_their_width(cx):
+    """'every address still resolves to its own bytes': the tail of a cluster is located from the sizes written in it. A
+    compressed cluster that a worker hands over may be longer than its data; the width of the tail's fields covers every
+    value written with it (= C01-R7, evaluated under this property)"""
+    import c01
+    F = cx.F
+    f = F.one(regex=r"clusterwriter::serialize_cluster_tail$")
+    c01.width_covers(cx, "R10", f, F.body(f))
+
+
 RULES = [
+    ("R10", r10_tail_fields_fit_their_width, 1),
     ("R9", r9_at_least_one_worker, 1),
     ("R8", r8_address_slots_are_independent, 1),
     ("R7", r7_positions_on_the_buffered_stream, 1),
